@@ -201,6 +201,17 @@ func derivedInputs(r *rand.Rand, g *gram.Grammar, samples []string, n int) []str
 	}
 	alpha := []rune("abcxyz019 _\n\"'\\u{}();=+-*/<>.,")
 	var out []string
+	// one derivation through every rule of the grammar (steered towards it, cheap elsewhere): every rule's code is
+	// executed by some input, not only the rules the sample files happen to use
+	st := gram.NewSteer(g)
+	for k, rule := range g.Rules {
+		if k > 0 && n < 40 && k%3 != 0 {
+			continue
+		}
+		if via := st.DeriveVia(r, g.Rules[0].Name, rule.Name, alpha); len(via) > 0 {
+			out = append(out, string(via))
+		}
+	}
 	for i := 0; i < n; i++ {
 		if i%3 == 0 {
 			out = append(out, string(gram.DeriveN(r, g, g.Rules[0].Name, alpha, 1500)))
